@@ -66,6 +66,14 @@ pub fn check_rule(c: &RuleCase, st: &mut Stats) -> Result<(), String> {
         vec![]
     };
     let zone = TimeZoneRef::new(&[], &types, &leap_recs, &extra).map_err(|e| format!("rule-only zone refused: {e:?}"))?;
+    // ... and half of those also carry a one-entry table ending on the rule's own start instant of 1975 (recorded, as zic does, on the
+    // counting scale): from there on the rule governs through the "after the last transition" path
+    let u0 = r.s(1975);
+    let table = [tz::timezone::Transition::new(crate::oleap::f(&crate::oleap::real_table(), u0) as i64, 1)];
+    let zone_t = if !leap_recs.is_empty() && (r.start_time as i64 + r.std.off as i64).rem_euclid(8) < 4 && matches!(class, Class::SFirst | Class::EFirst) { TimeZoneRef::new(&table, &types, &leap_recs, &extra).ok() } else { None };
+    if zone_t.is_some() {
+        st.class("rule_zone_with_leap_table_and_table");
+    }
     let mz = MZone { trans: vec![], types: vec![r.std.clone(), r.dst.clone()], leaps: vec![], trailer: MTrailer::Alt(r.clone()) };
     let model = ZoneModel { z: &mz, class: Some(class) };
     let mut instants = c.instants.clone();
@@ -102,7 +110,10 @@ pub fn check_rule(c: &RuleCase, st: &mut Stats) -> Result<(), String> {
     for &u in &instants {
         st.eval(1);
         let exp = model.forward(u);
-        let got = zone.find_local_time_type(u);
+        let got = match &zone_t {
+            Some(zt) if u >= u0 => zt.find_local_time_type(u),
+            _ => zone.find_local_time_type(u),
+        };
         if let Some(z) = &via_footer {
             let g2 = z.find_local_time_type(u);
             match (&got, &g2) {
@@ -204,43 +215,15 @@ pub fn run(ctx: &Ctx) -> Outcome {
     // year-edge corner sweep: a rule day at the very beginning / end of the year combined with the most extreme times and offsets
     // (the start / end instant then lies up to 9 days into the neighbouring year), the other day in mid-year; both orientations
     {
-        let mut edge_days: Vec<MDay> = vec![];
-        for n in [1u16, 2, 3, 363, 364, 365] {
-            edge_days.push(MDay::J1(n));
-        }
-        for n in [0u16, 1, 2, 363, 364, 365] {
-            edge_days.push(MDay::J0(n));
-        }
-        for d in [0u8, 3, 6] {
-            edge_days.push(MDay::M(1, 1, d));
-            edge_days.push(MDay::M(12, 5, d));
-        }
-        let times = [-604_799i32, -601_200, -86_400, 0, 86_400, 601_200, 604_799];
-        let offs = [-89_999i32, -88_200, 0, 91_800, 93_599];
-        let edr = &edge_days;
-        let rs = par_shards(edge_days.len() as u64, |shard, st| {
-            let day = edr[shard as usize];
-            for &t in &times {
-                for &o in &offs {
-                    for as_start in [true, false] {
-                        for &other_off in &[o, 0, (o as i64 + 3600).clamp(-89_999, 93_599) as i32] {
-                            let mid = MDay::J1(180);
-                            let (std_off, dst_off) = if as_start { (o, other_off) } else { (other_off, o) };
-                            let rule = if as_start {
-                                MRule { std: MLtt::new(std_off, false, Some("STD")), dst: MLtt::new(dst_off, true, Some("DST")), start: day, start_time: t, end: mid, end_time: 7200 }
-                            } else {
-                                MRule { std: MLtt::new(std_off, false, Some("STD")), dst: MLtt::new(dst_off, true, Some("DST")), start: mid, start_time: 7200, end: day, end_time: t }
-                            };
-                            if orule::classify(&rule) == Class::Unstable {
-                                continue;
-                            }
-                            for y0 in [1995i64, 2003] {
-                                let c = RuleCase { rule: rule.clone(), y0, instants: vec![] };
-                                check_enum("rule", &c, st, check_rule)?;
-                                st.class("year_edge_corner_rules");
-                            }
-                        }
-                    }
+        let rules = orule::corner_rules(&[-604_799, -601_200, -86_400, 0, 86_400, 601_200, 604_799], &[-89_999, -88_200, 0, 91_800, 93_599]);
+        let rr = &rules;
+        let n = 32u64;
+        let rs = par_shards(n, |shard, st| {
+            for rule in rr.iter().skip(shard as usize).step_by(n as usize) {
+                for y0 in [1995i64, 2003] {
+                    let c = RuleCase { rule: rule.clone(), y0, instants: vec![] };
+                    check_enum("rule", &c, st, check_rule)?;
+                    st.class("year_edge_corner_rules");
                 }
             }
             Ok(())
